@@ -224,8 +224,10 @@ impl<'a> ConstraintValidator<'a> {
         let index_schema = index_relation.schema();
         let index_root = index_relation.root();
 
-        // Build the key from the indexed columns
-        let mut key_bytes: Vec<u8> = Vec::new();
+        // Build the key from the indexed columns, laid out the way the keys of a tuple are: every value at the
+        // alignment of its type. (Concatenating the values one after the other put an INT that follows a TEXT at
+        // an unaligned offset; the comparator, which aligns, then read past the end of the key and panicked.)
+        let mut key_values: Vec<&DataType> = Vec::new();
         let mut has_null = false;
 
         for &col_idx in index.indexed_column_ids() {
@@ -236,9 +238,18 @@ impl<'a> ConstraintValidator<'a> {
                     has_null = true;
                     break;
                 }
-                let serialized = values[col_idx].serialize()?;
-                key_bytes.extend_from_slice(&serialized);
+                key_values.push(&values[col_idx]);
             }
+        }
+
+        let mut key_size = 0usize;
+        for value in &key_values {
+            key_size = key_size.next_multiple_of(value.align()) + value.runtime_size();
+        }
+        let mut key_bytes = vec![0u8; key_size];
+        let mut cursor = 0usize;
+        for value in &key_values {
+            cursor = value.write_to(&mut key_bytes, cursor)?;
         }
 
         // Skip uniqueness check if any indexed column is NULL
